@@ -198,12 +198,21 @@ def action(form, coefficient=None, derivatives_expanded=None):
         isinstance(coefficient, BaseFormOperator) and len(coefficient.arguments()) == 1
     )
     if isinstance(form, BaseForm) and is_coefficient_valid:
+        numbers = None
         if not derivatives_expanded:
+            if isinstance(form, Form):
+                numbers = {a.number() for a in form.arguments()}
             # For external operators differentiation may turn a Form into a FormSum,
             # and a FormSum's components may themselves simplify back into a single
             # Form (e.g. a term cancelling against a ZeroBaseForm).
             form = expand_derivatives(form)
         if isinstance(form, Form):
+            if numbers and max(numbers) not in {a.number() for a in form.arguments()}:
+                # The argument to be replaced only occurred in terms that
+                # vanished when the derivatives were expanded: there is
+                # nothing left to replace (and the last argument of the
+                # expanded form is not the one the action acts on)
+                return form
             return compute_form_action(form, coefficient)
     return Action(form, coefficient)
 
